@@ -213,11 +213,11 @@ def run(ctx):
     maxin_tab = "2" if quick else "3"
     if ctx.want("mc"):
         r = ctx.mc_expect_ok("p2p/MC_Node.tla", "MC_Node.cfg", what="SimpleNode machine, MAXIN=" + maxin_mc,
-                             env={"MAXIN": maxin_mc}, timeout=3000)
+                             env={"MAXIN": maxin_mc}, timeout=7200)
         ctx.exhaustive.append("every (API call of 9, peer script of <= %s messages over 14) : %d states" % (maxin_mc, r.distinct))
     w = World(3, {1: [1, 2], 2: [3]})
     if ctx.want("table"):
-        rows = ctx.table("p2p/NodeTable.tla", "NodeTable.cfg", env={"MAXIN": maxin_tab}, timeout=3000)
+        rows = ctx.table("p2p/NodeTable.tla", "NodeTable.cfg", env={"MAXIN": maxin_tab}, timeout=7200)
         ctx.exhaustive.append("outcome table replayed for every script of <= %s messages: %d rows" % (maxin_tab, len(rows)))
         for row in rows:
             op, inbox, exp = row["op"], list(row["inbox"]), row["out"]
